@@ -144,6 +144,15 @@ func ErrorFate(p *Program, call ssa.CallInstruction) (lost string) {
 		if f.Op == "==" && f.R.Op == "const" && f.R.Name == "nil" && f.L.Op == "call" && NameMatch(f.L.Name, "client.IgnoreNotFound") && len(f.L.Args) > 0 && termIs(f.L.Args[0], e) {
 			return true
 		}
+		// another result of the same call says so: the callee returns a nil error whenever that
+		// result has this value (e.g. `known == false`, `found == false`)
+		if f.Op == "==" && f.R.Op == "const" && (f.R.Name == "true" || f.R.Name == "false") && f.L.Op == "extract" && f.L.Idx != idx {
+			if c, ok := call.(*ssa.Call); ok && f.L.Call == c {
+				if callee := c.Call.StaticCallee(); callee != nil && errNilWhen(callee, f.L.Idx, f.R.Name == "true", idx) {
+					return true
+				}
+			}
+		}
 		return false
 	}
 	consumed := func(in ssa.Instruction, env Env) bool {
@@ -330,4 +339,40 @@ func walkBool(v ssa.Value) bool {
 		}
 	}
 	return false
+}
+
+// errNilWhen: in callee, every return whose result k may equal want returns the constant nil as result errIdx.
+func errNilWhen(callee *ssa.Function, k int, want bool, errIdx int) bool {
+	if callee == nil || callee.Blocks == nil || k >= callee.Signature.Results().Len() || errIdx >= callee.Signature.Results().Len() {
+		return false
+	}
+	seen := false
+	for _, b := range callee.Blocks {
+		for _, in := range b.Instrs {
+			ret, ok := in.(*ssa.Return)
+			if !ok || len(ret.Results) <= k || len(ret.Results) <= errIdx {
+				continue
+			}
+			may := false
+			for _, lf := range Leaves(Forwarded(ret.Results[k]), ret.Block()) {
+				if c, isC := Forwarded(lf.V).(*ssa.Const); isC {
+					if (constText(c) == "true") == want {
+						may = true
+					}
+				} else {
+					may = true
+				}
+			}
+			if !may {
+				continue
+			}
+			seen = true
+			for _, lf := range Leaves(Forwarded(ret.Results[errIdx]), ret.Block()) {
+				if c, isC := Forwarded(lf.V).(*ssa.Const); !isC || !c.IsNil() {
+					return false
+				}
+			}
+		}
+	}
+	return seen
 }
